@@ -136,7 +136,6 @@ impl Instruction {
             | Instruction::NthRow
             | Instruction::AppendTable
             | Instruction::PopTable
-            | Instruction::CloseUpvalue
             | Instruction::Add => 0,
             Instruction::CallNative => size_of::<Handle>(),
             Instruction::ScalarInt => size_of::<i64>(),
@@ -149,6 +148,8 @@ impl Instruction {
             Instruction::SetLocalVar
             | Instruction::SetUpvalue
             | Instruction::ReadUpvalue
+            // the index of the local variable that goes out of scope
+            | Instruction::CloseUpvalue
             | Instruction::ReadLocalVar => size_of::<u32>(),
             Instruction::Goto | Instruction::GotoIfTrue | Instruction::GotoIfFalse => {
                 size_of::<i32>()
